@@ -21,6 +21,7 @@ import EasyMl.Lemmas.ViewAccessors
 import EasyMl.Lemmas.ViewMatrixBridge
 import EasyMl.Lemmas.ViewWriteMany
 import EasyMl.Lemmas.ViewLawsLayout
+import EasyMl.Lemmas.ViewBuilt
 
 namespace EasyMl.C02
 open EasyMl EasyMl.Spec EasyMl.View
@@ -320,6 +321,25 @@ theorem laws_carry_to_getters (a b : View ν α) (ha : a.WF) (hb : b.WF) (h : Sa
     (idx : List Nat) (hl : idx.length = a.shape.length) (hbd : ∀ i ∈ idx, i ≤ usizeMax) :
     a.get idx = b.get idx := sameView_get ha hb h idx hl hbd
 
+/-- **Towers of matrix ↔ tensor round trips.**  `matrix_stack_agrees_with_matrix_model` holds for
+    any source of C12's model that reports the shape of the 2-dimensional view and answers like it
+    at every index pair (`TSim`), and what comes out of C12's composition then behaves in the same
+    way like the view `mkMatrixStack` returns.  Hence any tower
+    `TensorRefMatrix(ops_n(MatrixRefTensor( … TensorRefMatrix(ops_1(MatrixRefTensor(s))) … )))`,
+    each layer with its own matrix-side stack and names (`mkTower`), composed in C12's model
+    (`mviewTower`, repaired arithmetic) never panics, is refused exactly when this model refuses
+    some layer, and otherwise has the shape and the checked-getter answers of this model's view. -/
+theorem matrix_towers_agree_with_matrix_model (enc : Cell → Nat)
+    (layers : List (List MatOp × ν × ν)) (T : Fallible.TView ν) (s : View ν α)
+    (hs2 : s.shape.length = 2) (hT : TSim enc T s) :
+    (mkTower s layers = none →
+      ∃ sh, mviewTower Fallible.Arith.fixed T layers = .ok (.error sh)) ∧
+    (∀ v, mkTower s layers = some v →
+      ∃ T', mviewTower Fallible.Arith.fixed T layers = .ok (.ok T') ∧ T'.shape = v.shape ∧
+        ∀ i j, T'.get [i, j] = omap enc (v.get [i, j])) := by
+  obtain ⟨a, b⟩ := matrix_tower_bridge enc layers T s hs2 hT
+  exact ⟨a, fun v h => by obtain ⟨T', e, h1, h2⟩ := b v h; exact ⟨T', e, h1, h2⟩⟩
+
 /-- **The constructors establish the invariant.**  Every validation of the model
     (`Tensor::from`, `TensorRefMatrix::with_names` over a `Matrix` and over `MatrixRefTensor` of a tensor view,
     `TensorRange/TensorMask::from`, `from_all`,
@@ -368,6 +388,27 @@ theorem constructors_establish_wf :
       fun _ h => mkAccess_wf hs h, fun _ h => mkTranspose_wf hs h⟩
   · intro ss v hs
     exact ⟨fun _ hn h => mkStack_wf hs hn h, fun _ hsum h => mkChain_wf hs hsum h⟩
+
+/-- **The main theorems over constructed views only.**  `Built v` (Spec/ViewBuilt.lean): `v` was
+    obtained from `Tensor::from` / `TensorRefMatrix` over a `Matrix` by the constructors of the
+    adaptors — every form, i.e. also every convenience method of `Tensor` / `TensorView`, which
+    call them —, the mutators `set_names` / `source_ref_mut`, and writes through a view, with no
+    hypothesis beyond the two size assumptions (containers hold at most `usize::MAX` elements).
+    Every such view is well formed, hence: its shape is valid; its checked getters never panic on
+    `usize` coordinates and return the documented cell; the unchecked getters agree on in-bounds
+    indexes; `data_layout` and `from_memory_order` never panic; and what it hands out as sources
+    is constructed-quality (well formed) again. -/
+theorem constructed_views (v : View ν α) (hb : Built v) :
+    v.WF ∧
+    (ValidShape v.shape ∧ ∀ d ∈ v.shape, d.2 ≤ usizeMax) ∧
+    (∀ idx : List Nat, idx.length = v.shape.length → (∀ i ∈ idx, i ≤ usizeMax) →
+      v.get idx = .ok (v.specGet idx)) ∧
+    (∀ idx, inBounds (lens v.shape) idx = true →
+      ∃ c, v.getUnchecked idx = .ok c ∧ v.get idx = .ok (some c)) ∧
+    (∃ l, v.layout = .ok l) ∧ (∃ r, v.fromMemoryOrder = .ok r) ∧
+    (∀ s ∈ v.sources, s.WF) :=
+  ⟨hb.wf, view_shape_valid v hb.wf, view_get_eq_spec v hb.wf, view_unchecked_eq_checked v hb.wf,
+    (layout_never_panics v hb.wf).1, (layout_never_panics v hb.wf).2.1, View.sources_wf v hb.wf⟩
 
 /-! ### Non-vacuity: concrete compositions meet the hypotheses
 
@@ -489,6 +530,34 @@ example :
       (a.mkMatrixStack [.range ⟨1, 9⟩ ⟨0, 2⟩, .reverse true true] 7 8).map fun w =>
         ((match w.layout with | .ok l => some l | .panic _ => none), [w.specGet [0, 0], w.specGet [0, 1]])) =
     some (some .other, [some (1, 7), some (1, 3)]) := by decide
+
+/-- the depth-6 composition `ex1` is a constructed view (`Built`), so `constructed_views` speaks
+    about it without any further hypothesis -/
+example : ∀ v, ex1 = some v → Built v := by
+  intro v h
+  simp only [ex1, Option.bind_eq_some_iff] at h
+  obtain ⟨t, ht, r, hr, m, hm, rv, hrv, i, hi, e, he, hv⟩ := h
+  have h0 : Built t := Built.tensor ht (by decide)
+  exact Built.transpose (Built.expansion (Built.index (Built.reverse (Built.mask (Built.range h0 hr) hm) hrv) hi) he) hv
+
+/-- a sequence of writes through `ex1` (two of them at the same index, one outside the shape):
+    the last value per index is read back, the rest is untouched -/
+example : (ex1.bind fun v =>
+    match v.writeMany [([0, 0, 0], 70), ([0, 0, 1], 71), ([0, 0, 0], 72), ([0, 9, 0], 73)] with
+    | .ok v' => some ((match v'.read [0, 0, 0] with | .ok o => o | .panic _ => none),
+        (match v'.read [0, 0, 1] with | .ok o => o | .panic _ => none),
+        (match v'.read [0, 0, 2], v.read [0, 0, 2] with | .ok a, .ok b => a == b | _, _ => false),
+        v'.shape == v.shape)
+    | .panic _ => none) =
+    some (some 72, some 71, true, true) := by decide
+
+/-- a two-layer tower over a 3×4 tensor: a ranged, row-reversed matrix view of it as a tensor, and
+    of that a column-reversed matrix view as a tensor again -/
+example :
+    ((mkTensor 1 [(0, 3), (1, 4)] (List.range 12)).bind fun t =>
+      (mkTower t [([.range ⟨1, 2⟩ ⟨0, 3⟩, .reverse true false], 7, 8), ([.reverse false true], 5, 6)]).map fun v =>
+        (v.shape, [v.specGet [0, 0], v.specGet [1, 2], v.specGet [2, 0]])) =
+    some ([(5, 2), (6, 3)], [some (1, 10), some (1, 4), none]) := by decide
 
 /-- the legacy formula (unchanged tree) claims `[1, 0, 2]` for the same view: defect #12 -/
 example : mapLinearDataLayoutToTransposedLegacy
